@@ -14,6 +14,8 @@ print('|---|---|---|---|---|')
 for d in sorted(os.listdir(os.path.join(V, 'seeded'))):
     m = json.load(open(os.path.join(V, 'seeded', d, 'meta.json')))
     det = ', '.join('%s: %s' % (k, v['verdict']) for k, v in m.get('checks', {}).items())
+    if m.get('obsolete'):
+        det = 'n/a - ' + m['obsolete'].split(':')[0] + ' (see meta.json; exposed D18)'
     keys = []
     for k, v in m.get('checks', {}).items():
         if v['verdict'] == 'DETECTED':
